@@ -152,8 +152,14 @@ def random_callset(rng, nsamples=None, nrecords=None, p_missing=None, p_multi=No
                      filt=None if rng.random() < 0.6 else ([rng.choice(filters)]),
                      info=info, extra_fmt=extra_fmt)
         records.append(rec)
-    return CallSet(samples, contigs, records, info_defs=info_defs, fmt_defs=fmt_defs, filters=filters,
-                   version=rng.choice(["4.3", "4.3", "4.2", "4.2", "4.1"]))
+    cs_ = CallSet(samples, contigs, records, info_defs=info_defs, fmt_defs=fmt_defs, filters=filters,
+                  version=rng.choice(["4.3", "4.3", "4.2", "4.2", "4.1", "4.4"]))
+    # a fifth of the call sets write some genotypes with the VCF 4.4 leading separator (text only; the genotype is the same)
+    cs_.lead_sep = rng.choice([0, 0, 0, 0, 0, 0, 0, 0, 2, 5])
+    if len(contigs) >= 2 and rng.random() < 0.4:
+        # BCF only: the ##contig lines carry IDX= values that are not in line order
+        cs_.contig_perm = rng.sample(range(len(contigs)), len(contigs))
+    return cs_
 
 
 def random_sample_map(rng, samples, npops=None, subset=True):
